@@ -196,7 +196,7 @@ TEXT = {
         "text": "Model/Log.lean follows pkg/rsl's readers loop by loop (GetEntry, GetParentForEntry, GetLatestReferenceUpdaterEntry with all nine options, "
                 "GetFirstEntry / GetFirstReferenceUpdaterEntryForRef, GetNonGittufParentReferenceUpdaterEntryForEntry, GetFirstReferenceUpdaterEntryForCommit, "
                 "GetReferenceUpdaterEntriesInRange[ForRef]). Proved in Lean, for every store, every log length and every option combination (options universally "
-                "quantified): C04_latest_refines_reachable (Props/C04b) — composing with the C03 recording theorems lifted to every operation sequence (readyLog_run), the reader equals the list specification on every log recordable by numbered operations from the empty repository, with no hypothesis about the store left; C04_latest_refines_general / C04_latest_refines — on a chain whose links pass GetParentForEntry, complete (ChainInv) or cut short by a "
+                "quantified): C04_latest_refines_reachable and C04_first_refines_reachable (Props/C04b) — composing with the C03 recording theorems lifted to every operation sequence (readyLog_run), the reader equals the list specification on every log recordable by numbered operations from the empty repository, with no hypothesis about the store left; C04_latest_refines_general / C04_latest_refines — on a chain whose links pass GetParentForEntry, complete (ChainInv) or cut short by a "
                 "tampered link, the reader (F5/F24 repaired) returns exactly the entry and exactly the annotations of the list specification latestSpec "
                 "(takeWhile/dropWhile/find? over the log), not-found when nothing qualifies, and the tamper error whenever the scan has to leave the well-formed "
                 "prefix; C04_latest_refines_asis_partial — the same for the code as it stands for all options except UntilEntryID and before+UntilEntryNumber; "
